@@ -253,7 +253,23 @@ def validator_verdicts(ctx, stories):
         raise RuntimeError("WfRefsRun does not build: " + log[-1500:])
     pre = "From Ink.Data Require Import Types.\nFrom Ink.Comp Require Import WfRefsRun.\n"
     exprs = [f"run_wf {vlib.json2coq(json.loads(s))}" for s in stories]
-    return vlib.coq_eval_sharded(pre, exprs, shard=max(4, len(exprs) // (vlib.NPROC * 2) + 1), name="c06wf")
+    # own sharding: a shard over its time limit only loses its own stories (verdict None = not validated)
+    from concurrent.futures import ThreadPoolExecutor
+    size = max(4, min(20, len(exprs) // vlib.NPROC + 1))
+    chunks = [exprs[i:i + size] for i in range(0, len(exprs), size)]
+
+    def one(kc):
+        k, es = kc
+        try:
+            return vlib.coq_eval(pre, es, name="c06wf_%d" % k, timeout=600)
+        except Exception:
+            return [None] * len(es)
+
+    out = []
+    with ThreadPoolExecutor(max_workers=vlib.NPROC) as ex:
+        for part in ex.map(one, enumerate(chunks)):
+            out.extend(part)
+    return out
 
 
 def check_compiled(ctx, stories, exe_std, exe_stream, nvalidate):
@@ -291,6 +307,8 @@ def check_compiled(ctx, stories, exe_std, exe_stream, nvalidate):
     nval = 0
     if verdicts is not None:
         for i, v in zip(pick, verdicts):
+            if v is None:
+                continue
             nval += 1
             sid, src, js = stories[i]
             bad_model = not v.startswith("load=ok refs=1 story=1")
